@@ -51,6 +51,23 @@ theorem holds_append {F G : Facts} {σ : State} : Holds (F ++ G) σ ↔ Holds F 
     · exact h1 c h
     · exact h2 c h
 
+theorem holds_insertC {F : Facts} {c : Clause} {σ : State} (hF : Holds F σ) (hc : c.eval σ = true) : Holds (insertC F c) σ := by
+  unfold insertC
+  split
+  · exact hF
+  · intro d hd
+    rcases List.mem_append.mp hd with h | h
+    · exact hF d h
+    · simp only [List.mem_singleton] at h; subst h; exact hc
+
+theorem holds_union {F G : Facts} {σ : State} (hF : Holds F σ) (hG : Holds G σ) : Holds (union F G) σ := by
+  unfold union
+  induction G generalizing F with
+  | nil => simpa using hF
+  | cons c G ih =>
+    simp only [List.foldl_cons]
+    exact ih (holds_insertC hF (hG c (List.mem_cons_self ..))) (fun d hd => hG d (List.mem_cons_of_mem _ hd))
+
 theorem mem_of_contains {A : List Atom} {a : Atom} (h : A.contains a = true) : a ∈ A := by
   simpa using h
 
@@ -114,7 +131,7 @@ theorem chainStep_sound (F : Facts) (σ : State) (hF : Holds F σ) (A : List Ato
     HoldsA (chainStep F A) σ := by
   unfold chainStep
   suffices ∀ (G : Facts), (∀ c ∈ G, c.eval σ = true) → ∀ acc, HoldsA acc σ →
-      HoldsA (G.foldl (fun acc c => if c.pre.all (entailsA acc) then acc ++ c.post else acc) acc) σ from
+      HoldsA (G.foldl (fun acc c => if c.pre.all (entailsA acc) then acc ++ c.post.filter (fun a => !(acc.contains a)) else acc) acc) σ from
     this F hF A hA
   intro G
   induction G with
@@ -132,7 +149,7 @@ theorem chainStep_sound (F : Facts) (σ : State) (hF : Holds F σ) (A : List Ato
       intro a ha
       rcases List.mem_append.mp ha with h | h
       · exact hacc a h
-      · exact (List.all_eq_true.mp hc) a h
+      · exact (List.all_eq_true.mp hc) a (List.mem_filter.mp h).1
     · simp only [hp]
       exact hacc
 
@@ -157,12 +174,19 @@ theorem all_entails_sound (F : Facts) (σ : State) (hF : Holds F σ) (l : List A
 -- ------------------------------------------------------------------ kill
 
 theorem kill_holds (F : Facts) (σ : State) (x : Var) (n : Nat) (hF : Holds F σ) : Holds (kill x F) (σ.set x n) := by
-  intro c hc
-  unfold kill at hc
-  obtain ⟨hc1, hc2⟩ := List.mem_filter.mp hc
-  have hx : x ∉ c.vars := by simpa using hc2
-  rw [clause_congr c (σ.set x n) σ (fun y hy => set_other σ x y n (fun h => hx (h ▸ hy)))]
-  exact hF c hc1
+  unfold kill
+  apply holds_union
+  · intro c hc
+    obtain ⟨hc1, hc2⟩ := List.mem_filter.mp hc
+    have hx : x ∉ c.vars := by simpa using hc2
+    rw [clause_congr c (σ.set x n) σ (fun y hy => set_other σ x y n (fun h => hx (h ▸ hy)))]
+    exact hF c hc1
+  · intro c hc
+    obtain ⟨a, ha, rfl⟩ := List.mem_map.mp hc
+    obtain ⟨ha1, ha2⟩ := List.mem_filter.mp ha
+    have hx : x ∉ a.vars := by simpa using ha2
+    rw [fact_eval, atom_congr a (σ.set x n) σ (fun y hy => set_other σ x y n (fun h => hx (h ▸ hy)))]
+    exact closure_sound F σ hF a ha1
 
 theorem killAll_holds : ∀ (outs : List Var) (F : Facts) (σ : State) (vals : List Nat), Holds F σ →
     Holds (killAll outs F) (setMany σ outs vals) := by
@@ -246,22 +270,275 @@ theorem cond_sound (F : Facts) (σ : State) (hF : Holds F σ) : ∀ c : Cond,
 
 -- ------------------------------------------------------------------ meet
 
+theorem condFacts_post {e : Var} {p : Bool} {as : List Atom} {σ : State} (h : HoldsA as σ) : Holds (condFacts e p as) σ := by
+  intro c hc
+  obtain ⟨a, ha, rfl⟩ := List.mem_map.mp hc
+  have := h a ha
+  simp [Clause.eval, this]
+
+theorem condFacts_pre {e : Var} {p : Bool} {as : List Atom} {σ : State}
+    (h : (if p then Atom.nz e else Atom.z e).eval σ = false) : Holds (condFacts e p as) σ := by
+  intro c hc
+  obtain ⟨a, _, rfl⟩ := List.mem_map.mp hc
+  simp [Clause.eval, h]
+
+theorem discr_sound {A B : List Atom} {e : Var} (h : e ∈ discr A B) : Atom.nz e ∈ A ∧ entailsA B (.z e) = true := by
+  unfold discr at h
+  have h1 := List.mem_of_mem_take h
+  obtain ⟨h2, h3⟩ := List.mem_filter.mp h1
+  obtain ⟨a, ha, hae⟩ := List.mem_filterMap.mp h2
+  cases a <;> simp at hae
+  subst hae
+  exact ⟨ha, h3⟩
+
+/-- the result of `meet` holds in a state reached on the first path -/
+theorem meet_some_left (A B : Facts) (σ : State) (hA : Holds A σ) :
+    ∃ G, meet (some A) (some B) = some G ∧ Holds G σ := by
+  refine ⟨_, rfl, ?_⟩
+  have hca := closure_sound A σ hA
+  apply holds_union
+  · apply holds_union
+    · exact fun c hc => hA c (List.mem_filter.mp hc).1
+    · rw [holds_facts]
+      intro a ha
+      exact hca a (List.mem_filter.mp ha).1
+  · intro c hc
+    rcases List.mem_append.mp hc with h | h
+    · obtain ⟨e, he, hc2⟩ := List.mem_flatMap.mp h
+      obtain ⟨hnz, _⟩ := discr_sound he
+      have hnz' := hca _ hnz
+      rcases List.mem_append.mp hc2 with h3 | h3
+      · exact condFacts_post (fun a ha => hca a (List.mem_filter.mp ha).1) c h3
+      · refine condFacts_pre (p := false) ?_ c h3
+        simp [Atom.eval] at hnz' ⊢
+        exact hnz'
+    · obtain ⟨e, he, hc2⟩ := List.mem_flatMap.mp h
+      obtain ⟨_, hz⟩ := discr_sound he
+      have hz' := entailsA_sound _ σ hca _ hz
+      rcases List.mem_append.mp hc2 with h3 | h3
+      · refine condFacts_pre (p := true) ?_ c h3
+        simp [Atom.eval] at hz' ⊢
+        exact hz'
+      · exact condFacts_post (fun a ha => hca a (List.mem_filter.mp ha).1) c h3
+
+/-- … and in a state reached on the second path -/
+theorem meet_some_right (A B : Facts) (σ : State) (hB : Holds B σ) :
+    ∃ G, meet (some A) (some B) = some G ∧ Holds G σ := by
+  refine ⟨_, rfl, ?_⟩
+  have hcb := closure_sound B σ hB
+  apply holds_union
+  · apply holds_union
+    · intro c hc
+      have := (List.mem_filter.mp hc).2
+      exact hB c (by simpa using this)
+    · rw [holds_facts]
+      intro a ha
+      exact entailsA_sound _ σ hcb a (List.mem_filter.mp ha).2
+  · intro c hc
+    rcases List.mem_append.mp hc with h | h
+    · obtain ⟨e, he, hc2⟩ := List.mem_flatMap.mp h
+      obtain ⟨_, hz⟩ := discr_sound he
+      have hz' := entailsA_sound _ σ hcb _ hz
+      rcases List.mem_append.mp hc2 with h3 | h3
+      · refine condFacts_pre (p := true) ?_ c h3
+        simp [Atom.eval] at hz' ⊢
+        exact hz'
+      · exact condFacts_post (fun a ha => hcb a (List.mem_filter.mp ha).1) c h3
+    · obtain ⟨e, he, hc2⟩ := List.mem_flatMap.mp h
+      obtain ⟨hnz, _⟩ := discr_sound he
+      have hnz' := hcb _ hnz
+      rcases List.mem_append.mp hc2 with h3 | h3
+      · exact condFacts_post (fun a ha => hcb a (List.mem_filter.mp ha).1) c h3
+      · refine condFacts_pre (p := false) ?_ c h3
+        simp [Atom.eval] at hnz' ⊢
+        exact hnz'
+
 theorem meet_left {X Y : Option Facts} {σ : State} (h : ∃ G, X = some G ∧ Holds G σ) :
     ∃ G, meet X Y = some G ∧ Holds G σ := by
   obtain ⟨G, rfl, hG⟩ := h
   cases Y with
   | none => exact ⟨G, rfl, hG⟩
-  | some B => exact ⟨_, rfl, fun c hc => hG c (List.mem_filter.mp hc).1⟩
+  | some B => exact meet_some_left G B σ hG
 
 theorem meet_right {X Y : Option Facts} {σ : State} (h : ∃ G, Y = some G ∧ Holds G σ) :
     ∃ G, meet X Y = some G ∧ Holds G σ := by
   obtain ⟨G, rfl, hG⟩ := h
   cases X with
   | none => exact ⟨G, rfl, hG⟩
-  | some A =>
-    refine ⟨_, rfl, fun c hc => ?_⟩
-    have := (List.mem_filter.mp hc).2
-    exact hG c (by simpa using this)
+  | some A => exact meet_some_right A G σ hG
+
+theorem inconsistent_sound (F : Facts) (σ : State) (hF : Holds F σ) : inconsistent F = false := by
+  cases h' : inconsistent F with
+  | false => rfl
+  | true =>
+    exfalso
+    unfold inconsistent at h'
+    simp only [List.any_eq_true] at h'
+    obtain ⟨a, ha, hz⟩ := h'
+    have hc := closure_sound F σ hF
+    cases a <;> simp at hz
+    rename_i x
+    have h1 := hc _ ha
+    have h2 := entailsA_sound _ σ hc _ hz
+    simp [Atom.eval] at h1 h2
+    exact h1 h2
+
+-- ------------------------------------------------------------------ frame: a run changes only assigned variables
+
+def stOf : Flow → State
+  | .norm σ => σ
+  | .retd σ => σ
+
+theorem setMany_other (outs : List Var) : ∀ (σ : State) (vals : List Nat) (y : Var), y ∉ outs → setMany σ outs vals y = σ y := by
+  induction outs with
+  | nil => intro σ vals y _; simp [setMany]
+  | cons x xs ih =>
+    intro σ vals y hy
+    have hyx : y ≠ x := fun h => hy (h ▸ List.mem_cons_self ..)
+    have hyxs : y ∉ xs := fun h => hy (List.mem_cons_of_mem _ h)
+    cases vals with
+    | nil => simp only [setMany]; rw [ih _ _ y hyxs, set_other σ x y 0 hyx]
+    | cons v vs => simp only [setMany]; rw [ih _ _ y hyxs, set_other σ x y v hyx]
+
+def Frame (P : Prog) (O : Oracle) (n : Nat) : Prop :=
+  ∀ m s L σ fl, assigned P m s = some L → run P O n s σ = .ok fl → ∀ y, y ∉ L → stOf fl y = σ y
+
+theorem frame_step (P : Prog) (O : Oracle) (n : Nat) (ih : Frame P O n) : Frame P O (n + 1) := by
+  intro m s L σ fl ha hr y hy
+  cases m with
+  | zero => simp [assigned] at ha
+  | succ m =>
+  cases s with
+  | skip => simp only [run, Except.ok.injEq] at hr; subst hr; rfl
+  | seq a b =>
+    simp only [assigned] at ha
+    simp only [run] at hr
+    cases haa : assigned P m a with
+    | none => simp [haa] at ha
+    | some La =>
+      cases hab : assigned P m b with
+      | none => simp [haa, hab] at ha
+      | some Lb =>
+        simp only [haa, hab, Option.some.injEq] at ha
+        subst ha
+        have hya : y ∉ La := fun h => hy (List.mem_append_left _ h)
+        have hyb : y ∉ Lb := fun h => hy (List.mem_append_right _ h)
+        generalize hra : run P O n a σ = ra at hr
+        match ra, hr with
+        | .ok (.norm σ'), hr =>
+          simp only at hr
+          have h1 := ih m a La σ _ haa hra y hya
+          have h2 := ih m b Lb σ' fl hab hr y hyb
+          simp only [stOf] at h1
+          rw [h2, h1]
+        | .ok (.retd σ'), hr =>
+          simp only [Except.ok.injEq] at hr
+          subst hr
+          exact ih m a La σ _ haa hra y hya
+        | .error e, hr => simp at hr
+  | site kind text req =>
+    simp only [run] at hr
+    cases req with
+    | none => simp only [Except.ok.injEq] at hr; subst hr; rfl
+    | some a =>
+      simp only at hr
+      split at hr
+      · simp only [Except.ok.injEq] at hr; subst hr; rfl
+      · simp at hr
+  | call f outs ens =>
+    simp only [assigned, Option.some.injEq] at ha
+    subst ha
+    simp only [run] at hr
+    split at hr
+    · simp only [Except.ok.injEq] at hr; subst hr
+      exact setMany_other outs σ _ y hy
+    · simp at hr
+  | set x a =>
+    simp only [assigned, Option.some.injEq] at ha
+    subst ha
+    simp only [run, Except.ok.injEq] at hr
+    subst hr
+    exact set_other σ x y _ (fun h => hy (h ▸ List.mem_singleton.mpr rfl))
+  | ite c t e =>
+    simp only [assigned] at ha
+    simp only [run] at hr
+    cases hat : assigned P m t with
+    | none => simp [hat] at ha
+    | some Lt =>
+      cases hae : assigned P m e with
+      | none => simp [hat, hae] at ha
+      | some Le =>
+        simp only [hat, hae, Option.some.injEq] at ha
+        subst ha
+        split at hr
+        · exact ih m t Lt σ fl hat hr y (fun h => hy (List.mem_append_left _ h))
+        · exact ih m e Le σ fl hae hr y (fun h => hy (List.mem_append_right _ h))
+  | loop i cnt inv body =>
+    simp only [run] at hr
+    simp only [assigned] at ha
+    exact ih (m + 1) (.iter i cnt 0 body) L σ fl (by simpa [assigned] using ha) hr y hy
+  | iter i cnt k body =>
+    simp only [assigned] at ha
+    cases hab : assigned P m body with
+    | none => simp [hab] at ha
+    | some Lb =>
+      simp only [hab, Option.map_some, Option.some.injEq] at ha
+      subst ha
+      have hyi : y ≠ i := fun h => hy (h ▸ List.mem_cons_self ..)
+      have hyb : y ∉ Lb := fun h => hy (List.mem_cons_of_mem _ h)
+      simp only [run] at hr
+      split at hr
+      · generalize hrb : run P O n body (σ.set i k) = rb at hr
+        match rb, hr with
+        | .ok (.norm σ'), hr =>
+          simp only at hr
+          have h1 := ih m body Lb _ _ hab hrb y hyb
+          have h2 := ih (m + 1) (.iter i cnt (k + 1) body) (i :: Lb) σ' fl (by simp [assigned, hab]) hr y hy
+          simp only [stOf] at h1
+          rw [h2, h1, set_other σ i y k hyi]
+        | .ok (.retd σ'), hr =>
+          simp only [Except.ok.injEq] at hr
+          subst hr
+          have h1 := ih m body Lb _ _ hab hrb y hyb
+          simp only [stOf] at h1 ⊢
+          rw [h1, set_other σ i y k hyi]
+        | .error e, hr => simp at hr
+      · simp only [Except.ok.injEq] at hr; subst hr; rfl
+  | invoke f =>
+    simp only [assigned] at ha
+    simp only [run] at hr
+    cases hP : P f with
+    | none => simp [hP] at hr
+    | some body =>
+      simp only [hP] at ha hr
+      generalize hrb : run P O n body σ = rb at hr
+      match rb, hr with
+      | .ok (.norm σ'), hr =>
+        simp only [Except.ok.injEq] at hr; subst hr
+        exact ih m body L σ _ ha hrb y hy
+      | .ok (.retd σ'), hr =>
+        simp only [Except.ok.injEq] at hr; subst hr
+        exact ih m body L σ _ ha hrb y hy
+      | .error e, hr => simp at hr
+  | scope body =>
+    simp only [assigned] at ha
+    simp only [run] at hr
+    generalize hrb : run P O n body σ = rb at hr
+    match rb, hr with
+    | .ok (.norm σ'), hr =>
+      simp only [Except.ok.injEq] at hr; subst hr
+      exact ih m body L σ _ ha hrb y hy
+    | .ok (.retd σ'), hr =>
+      simp only [Except.ok.injEq] at hr; subst hr
+      exact ih m body L σ _ ha hrb y hy
+    | .error e, hr => simp at hr
+  | ret => simp only [run, Except.ok.injEq] at hr; subst hr; rfl
+
+theorem frame (P : Prog) (O : Oracle) : ∀ n, Frame P O n := by
+  intro n
+  induction n with
+  | zero => intro m s L σ fl _ hr; simp [run] at hr
+  | succ n ih => exact frame_step P O n ih
 
 -- ------------------------------------------------------------------ main theorem
 
@@ -277,11 +554,13 @@ def Main (P : Prog) (O : Oracle) (n : Nat) : Prop :=
   ∀ m F s Fn Fr σ, check P m F s = some (Fn, Fr) → Holds F σ → Post (run P O n s σ) Fn Fr
 
 def IterOK (P : Prog) (O : Oracle) (n : Nat) : Prop :=
-  ∀ m i cnt inv body Bn Br k σ,
-    check P m (inv.map fact ++ [fact (.lt i cnt)]) body = some (Bn, Br) →
-    (∀ G, Bn = some G → inv.all (entails G) = true) →
-    (∀ a ∈ inv, i ∉ a.vars) → i ≠ cnt → HoldsA inv σ →
-    Post (run P O n (.iter i cnt k body) σ) (some (inv.map fact)) Br
+  ∀ m m' i cnt inv body L (Fk : Facts) Bn Br k σ,
+    assigned P m' body = some L →
+    (∀ c ∈ Fk, ∀ x ∈ c.vars, x ≠ i ∧ x ∉ L) →
+    check P m (union (union Fk (inv.map fact)) [fact (.lt i cnt)]) body = some (Bn, Br) →
+    invKept inv Bn = true →
+    (∀ a ∈ inv, i ∉ a.vars) → i ≠ cnt → Holds Fk σ → HoldsA inv σ →
+    Post (run P O n (.iter i cnt k body) σ) (some (union Fk (inv.map fact))) Br
 
 theorem post_mono_ret {r : Except Fault Flow} {Fn Fr Fr' : Option Facts}
     (h : Post r Fn Fr) (hr : ∀ σ, (∃ G, Fr = some G ∧ Holds G σ) → ∃ G, Fr' = some G ∧ Holds G σ) :
@@ -295,7 +574,7 @@ theorem post_mono_ret {r : Except Fault Flow} {Fn Fr Fr' : Option Facts}
   | .error (.unknownFn f), _ => simp [Post]
 
 theorem iter_step (P : Prog) (O : Oracle) (n : Nat) (hM : Main P O n) (hI : IterOK P O n) : IterOK P O (n + 1) := by
-  intro m i cnt inv body Bn Br k σ hchk hBn hi hne hinv
+  intro m m' i cnt inv body L Fk Bn Br k σ hasg hFk hchk hBn hi hne hk0 hinv
   simp only [run]
   by_cases hk : k < σ cnt
   · simp only [hk, if_true]
@@ -303,29 +582,41 @@ theorem iter_step (P : Prog) (O : Oracle) (n : Nat) (hM : Main P O n) (hI : Iter
       intro a ha
       rw [atom_congr a (σ.set i k) σ (fun y hy => set_other σ i y k (fun h => hi a ha (h ▸ hy)))]
       exact hinv a ha
-    have hF0 : Holds (inv.map fact ++ [fact (.lt i cnt)]) (σ.set i k) := by
-      rw [holds_append]
-      refine ⟨(holds_facts inv _).mpr hinv1, ?_⟩
+    have hk1 : Holds Fk (σ.set i k) := by
       intro c hc
-      simp only [List.mem_singleton] at hc
-      subst hc
-      rw [fact_eval]
-      simp [Atom.eval, set_same, set_other σ i cnt k (Ne.symm hne), hk]
+      rw [clause_congr c (σ.set i k) σ (fun y hy => set_other σ i y k (hFk c hc y hy).1)]
+      exact hk0 c hc
+    have hF0 : Holds (union (union Fk (inv.map fact)) [fact (.lt i cnt)]) (σ.set i k) := by
+      apply holds_union
+      · exact holds_union hk1 ((holds_facts inv _).mpr hinv1)
+      · intro c hc
+        simp only [List.mem_singleton] at hc
+        subst hc
+        rw [fact_eval]
+        simp [Atom.eval, set_same, set_other σ i cnt k (Ne.symm hne), hk]
     have hb := hM m _ body Bn Br (σ.set i k) hchk hF0
     generalize hr : run P O n body (σ.set i k) = r at hb
     match r, hb with
     | .ok (.norm σ'), hb =>
       simp only
       obtain ⟨G, hG1, hG2⟩ := hb
-      have := all_entails_sound G σ' hG2 inv (hBn G hG1)
-      exact hI m i cnt inv body Bn Br (k + 1) σ' hchk hBn hi hne this
+      subst hG1
+      have hinv' := all_entails_sound G σ' hG2 inv (by simpa [invKept] using hBn)
+      have hfr := frame P O n m' body L (σ.set i k) _ hasg hr
+      have hk' : Holds Fk σ' := by
+        intro c hc
+        rw [clause_congr c σ' (σ.set i k) (fun y hy => by
+          have := hfr y (hFk c hc y hy).2
+          simpa [stOf] using this)]
+        exact hk1 c hc
+      exact hI m m' i cnt inv body L Fk (some G) Br (k + 1) σ' hasg hFk hchk hBn hi hne hk' hinv'
     | .ok (.retd σ'), hb => simpa [Post] using hb
     | .error (.panic a b), hb => exact absurd hb (by simp [Post])
     | .error (.contract f), _ => simp [Post]
     | .error .fuel, _ => simp [Post]
     | .error (.unknownFn f), _ => simp [Post]
   · simp only [hk, if_false]
-    exact ⟨_, rfl, (holds_facts inv σ).mpr hinv⟩
+    exact ⟨_, rfl, holds_union hk0 ((holds_facts inv σ).mpr hinv)⟩
 
 theorem main_step (P : Prog) (O : Oracle) (n : Nat) (hM : Main P O n) (hI : IterOK P O n) : Main P O (n + 1) := by
   intro m F s Fn Fr σ hchk hF
@@ -402,8 +693,7 @@ theorem main_step (P : Prog) (O : Oracle) (n : Nat) (hM : Main P O n) (hI : Iter
     by_cases hens : ens.all (·.eval (setMany σ outs (O f σ))) = true
     · simp only [hens, if_true]
       refine ⟨_, rfl, ?_⟩
-      rw [holds_append]
-      exact ⟨killAll_holds outs F σ _ hF, fun c hc => List.all_eq_true.mp hens c hc⟩
+      exact holds_union (killAll_holds outs F σ _ hF) (fun c hc => List.all_eq_true.mp hens c hc)
     · simp only [hens]
       simp [Post]
   | set x a =>
@@ -415,8 +705,7 @@ theorem main_step (P : Prog) (O : Oracle) (n : Nat) (hM : Main P O n) (hI : Iter
       simp only [Option.some.injEq, Prod.mk.injEq] at hchk
       obtain ⟨rfl, rfl⟩ := hchk
       refine ⟨_, rfl, ?_⟩
-      rw [holds_append]
-      refine ⟨hk, ?_⟩
+      refine holds_union hk ?_
       intro c hc
       simp only [List.mem_singleton] at hc
       subst hc
@@ -430,8 +719,7 @@ theorem main_step (P : Prog) (O : Oracle) (n : Nat) (hM : Main P O n) (hI : Iter
       · simp only [hy, if_false, Option.some.injEq, Prod.mk.injEq] at hchk
         obtain ⟨rfl, rfl⟩ := hchk
         refine ⟨_, rfl, ?_⟩
-        rw [holds_append]
-        refine ⟨hk, ?_⟩
+        refine holds_union hk ?_
         intro c hc
         simp only [List.mem_singleton] at hc
         subst hc
@@ -439,16 +727,20 @@ theorem main_step (P : Prog) (O : Oracle) (n : Nat) (hM : Main P O n) (hI : Iter
   | ite c t e =>
     simp only [check] at hchk
     simp only [run]
-    generalize hct : check P m (F ++ (c.pos F).map fact) t = ct at hchk
-    generalize hce : check P m (F ++ (c.neg F).map fact) e = ce at hchk
+    have hcs := cond_sound F σ hF c
+    generalize hct : (if inconsistent (union F ((c.pos F).map fact)) then some (none, none)
+      else check P m (union F ((c.pos F).map fact)) t) = ct at hchk
+    generalize hce : (if inconsistent (union F ((c.neg F).map fact)) then some (none, none)
+      else check P m (union F ((c.neg F).map fact)) e) = ce at hchk
     match ct, ce, hchk with
     | some (Tn, Tr), some (En, Er), hchk =>
       simp only [Option.some.injEq, Prod.mk.injEq] at hchk
       obtain ⟨rfl, rfl⟩ := hchk
-      have hcs := cond_sound F σ hF c
       by_cases hc : c.eval σ = true
       · simp only [hc, if_true]
-        have hF' : Holds (F ++ (c.pos F).map fact) σ := holds_append.mpr ⟨hF, (holds_facts _ σ).mpr (hcs.1 hc)⟩
+        have hF' : Holds (union F ((c.pos F).map fact)) σ := holds_union hF ((holds_facts _ σ).mpr (hcs.1 hc))
+        rw [inconsistent_sound _ σ hF'] at hct
+        simp only [Bool.false_eq_true, if_false] at hct
         have ht := hM m _ t _ _ σ hct hF'
         generalize run P O n t σ = r at ht
         match r, ht with
@@ -460,7 +752,9 @@ theorem main_step (P : Prog) (O : Oracle) (n : Nat) (hM : Main P O n) (hI : Iter
         | .error (.unknownFn f), _ => simp [Post]
       · have hc' : c.eval σ = false := by simpa using hc
         simp only [hc', Bool.false_eq_true, if_false]
-        have hF' : Holds (F ++ (c.neg F).map fact) σ := holds_append.mpr ⟨hF, (holds_facts _ σ).mpr (hcs.2 hc')⟩
+        have hF' : Holds (union F ((c.neg F).map fact)) σ := holds_union hF ((holds_facts _ σ).mpr (hcs.2 hc'))
+        rw [inconsistent_sound _ σ hF'] at hce
+        simp only [Bool.false_eq_true, if_false] at hce
         have he := hM m _ e _ _ σ hce hF'
         generalize run P O n e σ = r at he
         match r, he with
@@ -473,30 +767,40 @@ theorem main_step (P : Prog) (O : Oracle) (n : Nat) (hM : Main P O n) (hI : Iter
   | loop i cnt inv body =>
     simp only [check] at hchk
     simp only [run]
-    split at hchk
-    · simp at hchk
-    · rename_i h1
+    cases hasg : assigned P m body with
+    | none => simp [hasg] at hchk
+    | some L =>
+      simp only [hasg] at hchk
       split at hchk
       · simp at hchk
-      · rename_i h2
+      · rename_i h1
         split at hchk
         · simp at hchk
-        · rename_i Bn Br hcb
+        · rename_i h2
           split at hchk
-          · rename_i hok
-            simp only [Option.some.injEq, Prod.mk.injEq] at hchk
-            obtain ⟨rfl, rfl⟩ := hchk
-            have h1' : inv.all (entails F) = true := by simpa using h1
-            have h2' : (∀ a ∈ inv, i ∉ a.vars) ∧ i ≠ cnt := by
-              simp only [Bool.or_eq_true, not_or, List.any_eq_true, not_exists, not_and] at h2
-              refine ⟨fun a ha => ?_, ?_⟩
-              · have := h2.1 a ha; simpa using this
-              · have := h2.2; simpa using this
-            refine hI m i cnt inv body Bn Br 0 σ hcb ?_ h2'.1 h2'.2 (all_entails_sound F σ hF inv h1')
-            intro G hG
-            subst hG
-            simpa [invKept] using hok
           · simp at hchk
+          · rename_i Bn Br hcb
+            split at hchk
+            · rename_i hok
+              simp only [Option.some.injEq, Prod.mk.injEq] at hchk
+              obtain ⟨rfl, rfl⟩ := hchk
+              have h1' : inv.all (entails F) = true := by simpa using h1
+              have h2' : (∀ a ∈ inv, i ∉ a.vars) ∧ i ≠ cnt := by
+                simp only [Bool.or_eq_true, not_or, List.any_eq_true, not_exists, not_and] at h2
+                refine ⟨fun a ha => ?_, ?_⟩
+                · have := h2.1 a ha; simpa using this
+                · have := h2.2; simpa using this
+              refine hI m m i cnt inv body L _ Bn Br 0 σ hasg ?_ hcb hok h2'.1 h2'.2 ?_ (all_entails_sound F σ hF inv h1')
+              · intro c hc x hx
+                have := (List.mem_filter.mp hc).2
+                simp only [Bool.not_eq_true', List.any_eq_false, Bool.or_eq_false_iff] at this
+                have hx' := this x hx
+                simp only [Bool.or_eq_true, not_or] at hx'
+                constructor
+                · intro h; apply hx'.1; simp [h]
+                · intro h; apply hx'.2; simpa using h
+              · exact fun c hc => hF c (List.mem_filter.mp hc).1
+            · simp at hchk
   | iter i cnt k body => simp [check] at hchk
   | invoke f =>
     simp only [check] at hchk
@@ -519,6 +823,23 @@ theorem main_step (P : Prog) (O : Oracle) (n : Nat) (hM : Main P O n) (hI : Iter
         | .error (.contract f), _ => simp [Post]
         | .error .fuel, _ => simp [Post]
         | .error (.unknownFn f), _ => simp [Post]
+  | scope body =>
+    simp only [check] at hchk
+    simp only [run]
+    generalize hcb : check P m F body = cb at hchk
+    match cb, hchk with
+    | some (Bn, Br), hchk =>
+      simp only [Option.some.injEq, Prod.mk.injEq] at hchk
+      obtain ⟨rfl, rfl⟩ := hchk
+      have hb := hM m F body _ _ σ hcb hF
+      generalize run P O n body σ = r at hb
+      match r, hb with
+      | .ok (.norm σ'), hb => exact meet_left hb
+      | .ok (.retd σ'), hb => exact meet_right hb
+      | .error (.panic x y), hb => exact absurd hb (by simp [Post])
+      | .error (.contract f), _ => simp [Post]
+      | .error .fuel, _ => simp [Post]
+      | .error (.unknownFn f), _ => simp [Post]
   | ret =>
     simp only [check, Option.some.injEq, Prod.mk.injEq] at hchk
     obtain ⟨rfl, rfl⟩ := hchk
@@ -530,7 +851,7 @@ theorem main_and_iter (P : Prog) (O : Oracle) : ∀ n, Main P O n ∧ IterOK P O
   | zero =>
     constructor
     · intro m F s Fn Fr σ _ _; simp [run, Post]
-    · intro m i cnt inv body Bn Br k σ _ _ _ _ _; simp [run, Post]
+    · intro m m' i cnt inv body L Fk Bn Br k σ _ _ _ _ _ _ _ _; simp [run, Post]
   | succ n ih => exact ⟨main_step P O n ih.1 ih.2, iter_step P O n ih.1 ih.2⟩
 
 /-- SOUNDNESS: a skeleton accepted by the checker never panics. -/
